@@ -97,6 +97,9 @@ type Reg struct {
 	Producers      []string `json:"producers"`
 	Ops            []OpReg  `json:"operations"`
 	Auths          []string `json:"authenticators"`
+	// ThenToggle: after a first Validate, the JSON defaults of the same API value are switched
+	// (WithoutJSONDefaults / WithJSONDefaults) and Validate is called again
+	ThenToggle bool `json:"then_toggle_json_defaults,omitempty"`
 }
 
 // Req is one well-formed request to an operation of a validated API.
@@ -600,6 +603,11 @@ func judgeValidate(m *mon.M, d *Desc, doc *loads.Document, dhash string, g *Reg,
 	if obs.dup {
 		m.Violate("duplicate-name-in-report/"+catNames[obs.cat]+"/"+kc, "a name is reported twice: "+obs.String(), cas)
 	}
+	if g.ThenToggle || mon.Hash64(dhash+"|"+g.Kind+"|toggle")%4 == 0 {
+		if !revalidateAfterToggle(m, d, doc, g, kc) {
+			return api, obs.ok
+		}
+	}
 	if agrees(obs, named) || agrees(obs, inForce) {
 		return api, obs.ok
 	}
@@ -623,6 +631,51 @@ func judgeValidate(m *mon.M, d *Desc, doc *loads.Document, dhash string, g *Reg,
 		m.Violate("incomplete-report/"+catNames[obs.cat]+"/"+which+"/"+kc, detail, cas)
 	}
 	return api, obs.ok
+}
+
+// revalidateAfterToggle: validation judges the registrations the API holds when it is called, whatever
+// was validated before on the same API value.
+func revalidateAfterToggle(m *mon.M, d *Desc, doc *loads.Document, g *Reg, kc string) bool {
+	g2 := *g
+	g2.NoJSONDefaults = !g.NoJSONDefaults
+	g2.ThenToggle = false
+	cas := &Case{Desc: *d, Reg: *g}
+	cas.Reg.ThenToggle = true
+	var err1, err2 error
+	pv, st := mon.Catch(func() {
+		api := buildAPI(doc, g, &recorder{})
+		err1 = api.Validate()
+		if g2.NoJSONDefaults {
+			api = api.WithoutJSONDefaults()
+		} else {
+			api = api.WithJSONDefaults()
+		}
+		err2 = api.Validate()
+	})
+	m.Eval(1)
+	if pv != nil {
+		m.Violate("revalidate-panic/"+kc, fmt.Sprintf("%v\n%s", pv, st), cas)
+		return false
+	}
+	obs := observe(err2)
+	reg := registered(d, &g2)
+	// switching the defaults off removes the JSON codecs whoever registered them; switching them on installs them
+	if g2.NoJSONDefaults {
+		delete(reg[catConsumes], "application/json")
+		delete(reg[catProduces], "application/json")
+	}
+	named := expect(required(d, false), reg)
+	inForce := expect(required(d, true), reg)
+	m.Class("validate:again-after-json-defaults-toggle")
+	if agrees(obs, named) || agrees(obs, inForce) {
+		return true
+	}
+	first := "ok"
+	if err1 != nil {
+		first = "failed"
+	}
+	m.Violate("revalidation-after-json-defaults-toggle/"+kc, fmt.Sprintf("first Validate %s; after switching the JSON defaults (%s) Validate -> %s; the description requires -> %s (registration kind %s)", first, modeName(&g2), obs, named, g.Kind), cas)
+	return false
 }
 
 // ---- serving a validated API ----
